@@ -3,9 +3,27 @@ import SpecterModel.C06.Props
 /-!
 # C02 / C03 / C05 — the inductive step for a graceful departure
 
-What a completed `Leave()` does to a stable quiescent ring (every ring size, every id layout).
+What a completed `Leave()` does to a stable quiescent ring (every ring size ≥ 2, every id layout,
+including the two-member ring where predecessor = successor).
+
+Result in one paragraph. `Leave()` ALONE does not give back a `Stable` ring — neither in the model nor in
+the code it mirrors: the advisory `FinishLeave(stabilize)` reaches the predecessor while the leaver is still
+`Leaving` and therefore still answers, so the predecessor keeps the leaver as first successor, and nobody
+tells the successor to drop its predecessor pointer (`leave_breaks_stable`; a lookup then even returns the
+departed node: `leave_lookup_returns_departed`). Exactly these two pointers are off (`leave_partial`), and
+ONE further `stabilize` tick of the predecessor repairs both (its `Notify` makes the successor adopt it):
+`leave_then_stabilize_partial` gives the predecessor/successor clauses of `Stable`, quiescence and the
+membership "old minus leaver"; fingers are live members or the leaver (`FingersOr`) — if none names the
+leaver the ring is `Stable` (`leave_then_stabilize_stable`); otherwise lookups are still never wrong but may
+fail with `ErrNodeGone` (`lookup_after_leave_partial`, `lookup_tolerates_stale`). The leaver's data is at
+its successor, the new owner (`leave_conserves`). Useful on its own: a `fixFinger` pass keeps a stable ring
+stable (`fixFinger_keeps_stable`).
+
+Proof architecture: `leave_shape` describes the net after the leave node by node as `Option.map (tr …)` of
+the net before (`Shape`), following the seven steps of the code (locks, transfer, surrogate, advisory
+stabilize + fixFinger, Left, release); `repair_shape` adds the predecessor's next `stabilize` (`rep`).
 -/
-namespace Specter.C02
+namespace Specter.C02.Leave
 open Specter.Ring Specter.C01 Specter.C03 Specter.C05 Specter.C06
 
 /-! ### what `Mem` / `Stable` read of a node -/
@@ -828,4 +846,533 @@ theorem after_quiescent (c : Ctx net l pre succ nd ndp nds) (F : List (Option Na
 
 end after
 
-end Specter.C02
+/-! ### … and after the predecessor's next `stabilize` -/
+
+/-- what the predecessor's next `stabilize` changes: its own successor list (now headed by `succ`) and,
+through `Notify`, predecessor and surrogate of `succ` -/
+def rep (pre succ : Nat) (L2 : List Nat) (m : Nat) (x : Node) : Node :=
+  { x with
+    succs := if m = pre then L2 else x.succs
+    pred := if m = succ then some pre else x.pred
+    surrogate := if m = succ then (if pre == succ then none else some pre) else x.surrogate }
+
+section repair
+variable {net : Net} {l pre succ : Nat} {nd ndp nds : Node}
+
+theorem repair_shape (c : Ctx net l pre succ nd ndp nds) (F : List (Option Nat)) (net' : Net)
+    (h : Shape net net' (leftT l pre succ nd F)) :
+    ∃ L2 : List Nat, L2.head? = some succ ∧
+      Shape net (stabilize net' pre) (fun m x => rep pre succ L2 m (leftT l pre succ nd F m x)) := by
+  obtain ⟨r, hr⟩ := advisedList_two c
+  have hgp' := h pre; rw [c.hgp] at hgp'
+  have hgs' := h succ; rw [c.hgs] at hgs'
+  have hgl' := h l; rw [c.hg] at hgl'
+  obtain ⟨err, hdead⟩ := left_dead (l := l) (pre := pre) (succ := succ) (nd := nd) F nd false
+  obtain ⟨err2, hdead2⟩ := left_dead (l := l) (pre := pre) (succ := succ) (nd := nd) F nd true
+  have hcn : checkNodeState (leftT l pre succ nd F pre ndp) true = none := by
+    rw [left_live c F pre ndp c.hgp c.hpl true]; simp [checkNodeState, c.p_active.1, c.p_active.2]
+  have hsuccs : (leftT l pre succ nd F pre ndp).succs = l :: succ :: r := by simp [tr, hr]
+  have hgd : getPredSuccs net' l = none := by
+    unfold getPredSuccs; simp [hgl', hdead]
+  have hping : ping net' l = false := by
+    unfold ping; simp [hgl', hdead2]
+  have hcs' : checkNodeState (leftT l pre succ nd F succ nds) false = none := by
+    rw [left_live c F succ nds c.hgs c.hsl false]; exact c.hcs
+  have hpd : (leftT l pre succ nd F succ nds).pred = some l := c.s_pred
+  have e := stabilize_dead_head net' pre l succ _ _ r hgp' hcn hsuccs (Ne.symm c.hpl) hgd hping hgs' hcs' hpd
+    c.between_l
+  refine ⟨cutAfterSelf pre (makeSuccList succ (leftT l pre succ nd F succ nds).succs succEntries),
+    cutAfterSelf_head pre _ succ (makeSuccList_head succ _ succEntries), ?_⟩
+  rw [e]
+  apply shape_upd net _ (fun m x => if m = pre then
+      { (leftT l pre succ nd F m x) with
+        succs := cutAfterSelf pre (makeSuccList succ (leftT l pre succ nd F succ nds).succs succEntries) }
+      else leftT l pre succ nd F m x)
+  · exact shape_upd net net' _ _ pre _ h (fun m x _ => rfl)
+  · intro m x _
+    by_cases e1 : m = succ
+    · subst e1
+      by_cases e2 : m = pre
+      · subst e2; simp [rep]
+      · simp [rep, e2]
+    · by_cases e2 : m = pre
+      · subst e2; simp [rep, e1]
+      · simp [rep, e1, e2]
+
+theorem rep_live (L2 : List Nat) (m : Nat) (y : Node) (b : Bool) :
+    checkNodeState (rep pre succ L2 m y) b = checkNodeState y b := rfl
+
+/-- **The ring after a leave and the predecessor's next `stabilize`.** -/
+theorem repaired (c : Ctx net l pre succ nd ndp nds) (F : List (Option Nat)) (hF : ∀ f, some f ∈ F → Mem net f)
+    (L2 : List Nat) (hL2 : L2.head? = some succ) (net2 : Net)
+    (h : Shape net net2 (fun m x => rep pre succ L2 m (leftT l pre succ nd F m x))) :
+    PtrStable net2 ∧ Quiescent net2 ∧ (∀ m, Mem net2 m ↔ (Mem net m ∧ m ≠ l)) ∧ FingersOr net2 l := by
+  have memeq : ∀ m, Mem net2 m ↔ (Mem net m ∧ m ≠ l) := by
+    intro m
+    unfold Mem
+    rw [h m]
+    cases hx : net.get m with
+    | none => simp
+    | some x =>
+      by_cases e : m = l
+      · subst e
+        obtain ⟨err, he⟩ := left_dead (l := m) (pre := pre) (succ := succ) (nd := nd) F x false
+        simp [rep_live, he]
+      · simp [rep_live, left_live c F m x hx e, e]
+  have key : ∀ m y, net2.get m = some y → checkNodeState y false = none →
+      ∃ x, net.get m = some x ∧ checkNodeState x false = none ∧ m ≠ l ∧
+        y = rep pre succ L2 m (leftT l pre succ nd F m x) := by
+    intro m y hy hcy
+    rw [h m] at hy
+    cases hx : net.get m with
+    | none => simp [hx] at hy
+    | some x =>
+      simp [hx] at hy
+      have hml : m ≠ l := by
+        intro e; subst e
+        obtain ⟨err, he⟩ := left_dead (l := m) (pre := pre) (succ := succ) (nd := nd) F x false
+        rw [← hy, rep_live, he] at hcy; simp at hcy
+      exact ⟨x, rfl, by rw [← left_live c F m x hx hml false, ← rep_live (pre := pre) (succ := succ) L2 m, hy]; exact hcy,
+        hml, hy.symm⟩
+  have hpm : Mem net2 pre := (memeq pre).mpr ⟨⟨ndp, c.hgp, c.hcp⟩, c.hpl⟩
+  have hsm : Mem net2 succ := (memeq succ).mpr ⟨⟨nds, c.hgs, c.hcs⟩, c.hsl⟩
+  refine ⟨⟨?_, ?_, ?_⟩, ⟨?_, ?_⟩, memeq, ?_⟩
+  · intro m hm; exact c.hs.lt m ((memeq m).mp hm).1
+  · -- predecessors
+    intro m y hy hcy
+    obtain ⟨x, hx, hcx, hml, rfl⟩ := key m y hy hcy
+    obtain ⟨_, _, h3, _⟩ := left_fields c F m x hx hml
+    by_cases e : m = succ
+    · subst e
+      refine ⟨pre, by simp [rep], hpm, fun q hq => ?_⟩
+      obtain ⟨hq1, hq2⟩ := (memeq q).mp hq
+      exact c.gap q hq1 hq2
+    · obtain ⟨p, hp, hpmem, hmin⟩ := c.hs.pred m x hx hcx
+      have hpl : p ≠ l := fun e' => e (c.pred_l_unique m x hx hcx (by rw [hp, e']))
+      refine ⟨p, by simp [rep, e, h3, hp], (memeq p).mpr ⟨hpmem, hpl⟩, fun q hq => hmin q ((memeq q).mp hq).1⟩
+  · -- successors
+    intro m y hy hcy
+    obtain ⟨x, hx, hcx, hml, rfl⟩ := key m y hy hcy
+    obtain ⟨_, _, _, _, h5, _⟩ := left_fields c F m x hx hml
+    by_cases e : m = pre
+    · subst e
+      refine ⟨succ, by simp [rep, hL2], hsm, fun q hq => ?_⟩
+      obtain ⟨hq1, hq2⟩ := (memeq q).mp hq
+      have := c.gap q hq1 hq2
+      exact ⟨this.1, fun e' => by rw [← e']; exact this.2 e'.symm⟩
+    · obtain ⟨s, hsu, hsmem, hmin⟩ := c.hs.succ m x hx hcx
+      have hsl : s ≠ l := fun e' => e (c.succ_l_unique m x hx hcx (by rw [hsu, e']))
+      refine ⟨s, ?_, (memeq s).mpr ⟨hsmem, hsl⟩, fun q hq => hmin q ((memeq q).mp hq).1⟩
+      have : (rep pre succ L2 m (leftT l pre succ nd F m x)).succs = (leftT l pre succ nd F m x).succs := by
+        simp [rep, e]
+      rw [this, h5, hsu]
+  · -- all members Active and up
+    intro m y hy hcy
+    obtain ⟨x, hx, hcx, hml, rfl⟩ := key m y hy hcy
+    obtain ⟨h1, h2, _⟩ := left_fields c F m x hx hml
+    have := c.hq.active m x hx hcx
+    exact ⟨by show (leftT l pre succ nd F m x).state = _; rw [h1]; exact this.1,
+           by show (leftT l pre succ nd F m x).crashed = _; rw [h2]; exact this.2⟩
+  · -- surrogates
+    intro m y hy hcy
+    obtain ⟨x, hx, hcx, hml, rfl⟩ := key m y hy hcy
+    obtain ⟨_, _, h3, h4, _⟩ := left_fields c F m x hx hml
+    by_cases e : m = succ
+    · subst e
+      by_cases e2 : pre = m
+      · left; simp [rep, e2]
+      · right; simp [rep, e2]
+    · have := c.hq.surrogate m x hx hcx
+      simpa [rep, e, h3, h4] using this
+  · -- fingers
+    intro m y hy hcy f hf
+    obtain ⟨x, hx, hcx, hml, rfl⟩ := key m y hy hcy
+    obtain ⟨_, _, _, _, _, h6⟩ := left_fields c F m x hx hml
+    have hf' : some f ∈ (leftT l pre succ nd F m x).fingers := hf
+    rw [h6] at hf'
+    have hold : Mem net f := by
+      by_cases e : m = pre
+      · simp only [e, if_true] at hf'; exact hF f hf'
+      · simp only [e, if_false] at hf'; exact c.hs.fingers m x hx hcx f hf'
+    by_cases e : f = l
+    · right; exact e
+    · left; exact (memeq f).mpr ⟨hold, e⟩
+
+end repair
+
+/-! ### lookups on a pointer-stable ring that still has fingers to a departed node -/
+
+/-- Lookups with stale fingers: on a ring whose predecessor/successor pointers are right and whose
+fingers name live members or one departed node `l` (present, answering `ErrNodeGone`), a lookup from any
+member for any key returns the key's owner, or — when the route uses a stale finger — fails with the
+(retryable at the KV layer) `ErrNodeGone`. It never returns a wrong node and never diverges. -/
+theorem lookup_tolerates_stale_aux (net : Net) (l : Nat) (hp : PtrStable net) (hf : FingersOr net l) (hlM : l < M)
+    (hdead : ∃ ndl, net.get l = some ndl ∧ checkNodeState ndl false = some .gone) :
+    ∀ (d n key : Nat), cw key n = d → Mem net n → key < M →
+      ∃ fuel, (∃ o, findSucc net fuel n key = .found o ∧ IsOwner net key o) ∨
+              findSucc net fuel n key = .err .gone := by
+  intro d
+  induction d using Nat.strongRecOn with
+  | ind d ih =>
+    intro n key hd hn hk
+    have hnM := hp.lt n hn
+    obtain ⟨nd, hg, hc⟩ := hn
+    have hn : Mem net n := ⟨nd, hg, hc⟩
+    obtain ⟨p, hpp, hpm, hpmin⟩ := hp.pred n nd hg hc
+    obtain ⟨s, hsu, hsm, hsmin⟩ := hp.succ n nd hg hc
+    have hpM := hp.lt p hpm
+    have hsM := hp.lt s hsm
+    by_cases c1 : between p key n true = true
+    · refine ⟨1, Or.inl ⟨n, findSucc_pred net 0 n key nd hg hc (by simp [inPredRange, hpp, c1]), hn, ?_⟩⟩
+      intro m hm
+      have hmM := hp.lt m hm
+      have := hpmin m hm
+      rw [between_closed_iff p key n hpM hk hnM] at c1
+      have := dist_cases p key hpM hk; have := dist_cases p n hpM hnM
+      have := dist_cases p m hpM hmM; have := dist_cases key n hk hnM
+      have := dist_cases key m hk hmM; have := M_val
+      omega
+    · have hpr : inPredRange nd.pred key n = false := by simp [inPredRange, hpp, c1]
+      by_cases c2 : between n key s true = true
+      · refine ⟨1, Or.inl ⟨s, findSucc_succ_found net 0 n key s nd hg hc hpr hsu c2, hsm, ?_⟩⟩
+        intro m hm
+        have hmM := hp.lt m hm
+        have := hsmin m hm
+        rw [between_closed_iff n key s hnM hk hsM] at c2
+        have := dist_cases n key hnM hk; have := dist_cases n s hnM hsM
+        have := dist_cases n m hnM hmM; have := dist_cases key s hk hsM
+        have := dist_cases key m hk hmM; have := M_val
+        omega
+      · have c2' : between n key s true = false := by simpa using c2
+        have hfM : ∀ f, some f ∈ nd.fingers → f < M := by
+          intro f hfm
+          rcases hf n nd hg hc f hfm with h | h
+          · exact hp.lt f h
+          · rw [h]; exact hlM
+        obtain ⟨_, hlt⟩ := hop_decreases n key s nd.fingers hnM hk hsM hfM c2'
+        have hcm : Mem net (hop n key s nd.fingers) ∨ hop n key s nd.fingers = l := by
+          rcases hop_cases n key s nd.fingers with h | ⟨hm, _⟩
+          · rw [h]; exact Or.inl hsm
+          · exact hf n nd hg hc _ hm
+        rcases hcm with hcm | hcm
+        · obtain ⟨fuel, hres⟩ := ih _ (by rw [← hd]; exact hlt) _ key rfl hcm hk
+          refine ⟨fuel + 1, ?_⟩
+          rw [findSucc_hop net fuel n key s nd hg hc hpr hsu c2']; exact hres
+        · obtain ⟨ndl, hgl, hcl⟩ := hdead
+          refine ⟨2, Or.inr ?_⟩
+          rw [findSucc_hop net 1 n key s nd hg hc hpr hsu c2', hcm]
+          exact findSucc_dead net 0 l key ndl .gone hgl hcl
+
+theorem lookup_tolerates_stale (net : Net) (l : Nat) (hp : PtrStable net) (hf : FingersOr net l) (hlM : l < M)
+    (hdead : ∃ ndl, net.get l = some ndl ∧ checkNodeState ndl false = some .gone)
+    (n key : Nat) (hn : Mem net n) (hk : key < M) :
+    ∃ fuel, (∃ o, findSucc net fuel n key = .found o ∧ IsOwner net key o) ∨
+            findSucc net fuel n key = .err .gone :=
+  lookup_tolerates_stale_aux net l hp hf hlM hdead _ n key rfl hn hk
+
+/-! ### the theorems -/
+
+/-
+FULL STATEMENT (the wished-for inductive step) — FALSE of the model and of the code it mirrors:
+
+  theorem leave_preserves_stable (net : Net) (hs : Stable net) (hq : Quiescent net) (l : Nat) (hl : Mem net l)
+      (hmore : ∃ m, Mem net m ∧ m ≠ l) (net' : Net) (h : leave net l = (net', none)) :
+      Stable net' ∧ Quiescent net' ∧ ¬ Mem net' l ∧ (∀ m, Mem net' m ↔ (Mem net m ∧ m ≠ l))
+
+`Leave()` sends the advisory `FinishLeave(stabilize)` to the predecessor while the leaver is still
+`Leaving`; a `Leaving` node still answers `GetPredecessor`/`GetSuccessors`, so the predecessor's
+`stabilize` keeps the leaver as first successor (and its `fixFinger` may re-learn the leaver as finger);
+nothing tells the successor to drop its predecessor pointer. Right after `Leave()` returns, the
+predecessor's successor and the successor's predecessor are the departed node: `leave_breaks_stable`,
+`leave_lookup_returns_departed` below are the machine-checked witnesses. What IS true:
+
+* `leave_partial`: the leave succeeds, the leaver is gone, membership is "old minus leaver", the ring is
+  quiescent, every surviving node keeps state, predecessor, first successor and surrogate, and every
+  finger names an old member;
+* `leave_then_stabilize_partial`: ONE `stabilize` at the predecessor (its next periodic tick) restores the
+  predecessor/successor clauses of `Stable` (`PtrStable`) and quiescence. The finger clause holds in the
+  weakened form "live member or the departed node" (`FingersOr`);
+* `leave_then_stabilize_stable`: if no survivor holds a finger to the leaver, that ring is `Stable`;
+* `lookup_after_leave_partial`: on that ring every lookup returns the owner or fails with `ErrNodeGone`.
+-/
+
+/-- **Leave, part 1 (PARTIAL: `Stable net'` itself is false, see above).** On a stable quiescent ring
+with at least two members a graceful leave of any member succeeds at the first attempt; afterwards the
+leaver is no member, all other members still are, the ring is quiescent, every surviving node has the
+state, predecessor, first successor and surrogate it had before (so exactly two pointers are off: the
+predecessor's successor and the successor's predecessor still name the leaver), and every finger of a
+live node is a live node or the leaver.
+Hypothesis added to the wish: none. Missing: `Stable net'`. -/
+theorem leave_partial (net : Net) (hs : Stable net) (hq : Quiescent net) (l : Nat) (hl : Mem net l)
+    (hmore : ∃ m, Mem net m ∧ m ≠ l) :
+    (leave net l).2 = none ∧
+    Quiescent (leave net l).1 ∧ ¬ Mem (leave net l).1 l ∧
+    (∀ m, Mem (leave net l).1 m ↔ (Mem net m ∧ m ≠ l)) ∧
+    (∀ m x, net.get m = some x → m ≠ l → ∃ x', (leave net l).1.get m = some x' ∧
+        x'.state = x.state ∧ x'.crashed = x.crashed ∧ x'.pred = x.pred ∧ x'.surrogate = x.surrogate ∧
+        x'.succs.head? = x.succs.head?) ∧
+    FingersOr (leave net l).1 l := by
+  obtain ⟨pre, succ, nd, ndp, nds, c⟩ := ctx_of net hs hq l hl hmore
+  obtain ⟨F, hF, hok, hsh⟩ := leave_shape c
+  have memeq := after_mem c F _ hsh
+  refine ⟨hok, after_quiescent c F _ hsh, fun h => ((memeq l).mp h).2 rfl, memeq, ?_, ?_⟩
+  · intro m x hx hml
+    obtain ⟨h1, h2, h3, h4, h5, _⟩ := left_fields c F m x hx hml
+    exact ⟨_, by rw [hsh m, hx]; rfl, h1, h2, h3, h4, h5⟩
+  · intro m y hy hcy f hf
+    rw [hsh m] at hy
+    cases hx : net.get m with
+    | none => simp [hx] at hy
+    | some x =>
+      simp [hx] at hy
+      subst hy
+      have hml : m ≠ l := by
+        intro e; subst e
+        obtain ⟨err, he⟩ := left_dead (l := m) (pre := pre) (succ := succ) (nd := nd) F x false
+        have := he.symm.trans hcy; simp at this
+      have hcx : checkNodeState x false = none := (left_live c F m x hx hml false).symm.trans hcy
+      obtain ⟨_, _, _, _, _, h6⟩ := left_fields c F m x hx hml
+      have hf : some f ∈ (leftT l pre succ nd F m x).fingers := hf
+      rw [h6] at hf
+      have hold : Mem net f := by
+        by_cases e : m = pre
+        · simp only [e, if_true] at hf; exact hF f hf
+        · simp only [e, if_false] at hf; exact hs.fingers m x hx hcx f hf
+      by_cases e : f = l
+      · right; exact e
+      · left; exact (memeq f).mpr ⟨hold, e⟩
+
+/-- `leave_partial` in the shape of the wished-for theorem -/
+theorem leave_partial' (net : Net) (hs : Stable net) (hq : Quiescent net) (l : Nat) (hl : Mem net l)
+    (hmore : ∃ m, Mem net m ∧ m ≠ l) (net' : Net) (h : leave net l = (net', none)) :
+    Quiescent net' ∧ ¬ Mem net' l ∧ (∀ m, Mem net' m ↔ (Mem net m ∧ m ≠ l)) ∧ FingersOr net' l := by
+  have := leave_partial net hs hq l hl hmore
+  rw [h] at this
+  exact ⟨this.2.1, this.2.2.1, this.2.2.2.1, this.2.2.2.2.2⟩
+
+/-- the leaver's predecessor pointer (the node whose next `stabilize` completes the repair) -/
+def predOf (net : Net) (l : Nat) : Nat := ((net.get l).bind (·.pred)).getD l
+
+/-- **Leave, part 2 (PARTIAL: finger clause weakened).** After a graceful leave and ONE further
+`stabilize` at the leaver's predecessor, the ring is pointer-stable (every member knows its true
+predecessor and true first successor — the `lt`/`pred`/`succ` clauses of `Stable`), quiescent, its
+members are the old members without the leaver, and every finger names a live member or the leaver.
+Missing for `Stable`: fingers to the leaver held by survivors are not yet replaced (that is the job of
+later `fixFinger` rounds; under `Stable`'s weak finger hypothesis a stale finger can even persist
+through any number of rounds, see `stale_finger_persists`). -/
+theorem leave_then_stabilize_partial (net : Net) (hs : Stable net) (hq : Quiescent net) (l : Nat) (hl : Mem net l)
+    (hmore : ∃ m, Mem net m ∧ m ≠ l) (net' : Net) (h : leave net l = (net', none)) :
+    PtrStable (stabilize net' (predOf net l)) ∧ Quiescent (stabilize net' (predOf net l)) ∧
+    ¬ Mem (stabilize net' (predOf net l)) l ∧
+    (∀ m, Mem (stabilize net' (predOf net l)) m ↔ (Mem net m ∧ m ≠ l)) ∧
+    FingersOr (stabilize net' (predOf net l)) l := by
+  obtain ⟨pre, succ, nd, ndp, nds, c⟩ := ctx_of net hs hq l hl hmore
+  obtain ⟨F, hF, _, hsh⟩ := leave_shape c
+  rw [h] at hsh
+  have hpre : predOf net l = pre := by unfold predOf; simp [c.hg, c.hp]
+  rw [hpre]
+  obtain ⟨L2, hL2, hsh2⟩ := repair_shape c F net' hsh
+  obtain ⟨h1, h2, h3, h4⟩ := repaired c F hF L2 hL2 _ hsh2
+  exact ⟨h1, h2, fun hm => ((h3 l).mp hm).2 rfl, h3, h4⟩
+
+/-- **Leave, full strength when no stale finger remains**: if in that ring no live node holds a finger
+to the leaver, the ring is `Stable` (and quiescent, with the leaver gone) — the inductive step of
+C02/C03 for departures. -/
+theorem leave_then_stabilize_stable (net : Net) (hs : Stable net) (hq : Quiescent net) (l : Nat) (hl : Mem net l)
+    (hmore : ∃ m, Mem net m ∧ m ≠ l) (net' : Net) (h : leave net l = (net', none))
+    (hno : ∀ n nd, (stabilize net' (predOf net l)).get n = some nd → checkNodeState nd false = none →
+      some l ∉ nd.fingers) :
+    Stable (stabilize net' (predOf net l)) ∧ Quiescent (stabilize net' (predOf net l)) ∧
+    ¬ Mem (stabilize net' (predOf net l)) l ∧
+    (∀ m, Mem (stabilize net' (predOf net l)) m ↔ (Mem net m ∧ m ≠ l)) := by
+  obtain ⟨h1, h2, h3, h4, h5⟩ := leave_then_stabilize_partial net hs hq l hl hmore net' h
+  exact ⟨stable_of_ptrStable _ l h1 h5 hno, h2, h3, h4⟩
+
+/-- **Lookups after a leave (PARTIAL: may fail with `ErrNodeGone`, never wrong).** On the ring after the
+leave and the predecessor's `stabilize`, a lookup from any remaining member for any key returns the
+key's owner among the remaining members, or fails with `ErrNodeGone` when the route crosses a finger
+that still names the leaver. -/
+theorem lookup_after_leave_partial (net : Net) (hs : Stable net) (hq : Quiescent net) (l : Nat) (hl : Mem net l)
+    (hmore : ∃ m, Mem net m ∧ m ≠ l) (net' : Net) (h : leave net l = (net', none))
+    (n key : Nat) (hn : Mem net n) (hnl : n ≠ l) (hk : key < M) :
+    ∃ fuel, (∃ o, findSucc (stabilize net' (predOf net l)) fuel n key = .found o ∧
+                  IsOwner (stabilize net' (predOf net l)) key o) ∨
+            findSucc (stabilize net' (predOf net l)) fuel n key = .err .gone := by
+  obtain ⟨h1, _, _, h4, h5⟩ := leave_then_stabilize_partial net hs hq l hl hmore net' h
+  obtain ⟨pre, succ, nd, ndp, nds, c⟩ := ctx_of net hs hq l hl hmore
+  obtain ⟨F, hF, _, hsh⟩ := leave_shape c
+  rw [h] at hsh
+  have hpre : predOf net l = pre := by unfold predOf; simp [c.hg, c.hp]
+  rw [hpre] at h1 h4 h5 ⊢
+  obtain ⟨L2, hL2, hsh2⟩ := repair_shape c F net' hsh
+  refine lookup_tolerates_stale _ l h1 h5 c.lM ?_ n key ((h4 n).mpr ⟨hn, hnl⟩) hk
+  refine ⟨_, by rw [hsh2 l, c.hg]; rfl, ?_⟩
+  rw [rep_live]
+  simp [checkNodeState, tr, c.l_active.2]
+
+/-! ### C03 / C05: the leaver's data ends up at its successor -/
+
+theorem between_zero (h : Nat) : between 0 h 0 true = true := by
+  unfold between; simp; omega
+
+/-- **Conservation of a leave.** After a graceful leave on a stable quiescent ring:
+(1) the leaver's store holds no data any more (only tombstones may remain);
+(2) the store of its successor `succ` — the new owner of the leaver's range, a live member — is exactly
+    `Import(old store, data entries of the leaver)`: every entry there was there before or carries key
+    and hash of a data entry of the leaver; and when keys are distinct within the leaver's store and no
+    key lives on both nodes (the placement invariant of C05: each key lives only on its owner), every
+    data entry of the leaver is present at the successor with the same key, hash, simple value and
+    children set (`importedEntry`, `importedEntry_faithful`), and every old entry of the successor is
+    still there unchanged;
+(3) no other node's store changes. -/
+theorem leave_conserves (net : Net) (hs : Stable net) (hq : Quiescent net) (l : Nat) (hl : Mem net l)
+    (hmore : ∃ m, Mem net m ∧ m ≠ l) (net' : Net) (h : leave net l = (net', none)) :
+    ∃ succ nd nds, net.get l = some nd ∧ nd.succs.head? = some succ ∧ succ ≠ l ∧ net.get succ = some nds ∧
+      (∃ ndl', net'.get l = some ndl' ∧ ∀ e ∈ ndl'.store, e.isDeleted = true) ∧
+      (∃ nds', net'.get succ = some nds' ∧ checkNodeState nds' false = none ∧
+        nds'.store = importEntries nds.store (rangeKeys nd.store 0 0) ∧
+        (∀ e ∈ nds'.store, (∃ e0 ∈ nds.store, e0.key = e.key ∧ e0.hash = e.hash) ∨
+            (∃ m ∈ nd.store, m.isDeleted = false ∧ m.key = e.key ∧ m.hash = e.hash)) ∧
+        ((nd.store.map (·.key)).Nodup →
+          (∀ e ∈ nds.store, ∀ m ∈ nd.store, m.isDeleted = false → e.key ≠ m.key) →
+          (∀ e ∈ nd.store, e.isDeleted = false → importedEntry e ∈ nds'.store) ∧
+          (∀ e ∈ nds.store, e ∈ nds'.store))) ∧
+      (∀ m, m ≠ l → m ≠ succ → (net'.get m).map (·.store) = (net.get m).map (·.store)) := by
+  obtain ⟨pre, succ, nd, ndp, nds, c⟩ := ctx_of net hs hq l hl hmore
+  obtain ⟨F, hF, _, hsh⟩ := leave_shape c
+  rw [h] at hsh
+  refine ⟨succ, nd, nds, c.hg, c.hsu, c.hsl, c.hgs, ?_, ?_, ?_⟩
+  · refine ⟨_, by rw [hsh l, c.hg]; rfl, ?_⟩
+    intro e he
+    have he' : e ∈ removeKeys nd.store (rangeKeys nd.store 0 0) := by simpa [tr] using he
+    cases hd : e.isDeleted with
+    | true => rfl
+    | false =>
+      have := remaining_outside_range nd.store 0 0 e he' hd
+      rw [between_zero] at this; simp at this
+  · have hst : (leftT l pre succ nd F succ nds).store = importEntries nds.store (rangeKeys nd.store 0 0) := by
+      simp [tr, c.hsl]
+    refine ⟨_, by rw [hsh succ, c.hgs]; rfl, (left_live c F succ nds c.hgs c.hsl false).trans c.hcs, hst, ?_, ?_⟩
+    · intro e he
+      rw [hst] at he
+      rcases mem_importEntries _ _ e he with h1 | ⟨m, hm, hk, hh⟩
+      · left; exact h1
+      · right
+        obtain ⟨hm1, _, hm3⟩ := (mem_rangeKeys _ _ _ _).mp hm
+        exact ⟨m, hm1, hm3, hk, hh⟩
+    · intro hnd hfresh
+      have hmovednd : ((rangeKeys nd.store 0 0).map (·.key)).Nodup := by
+        unfold rangeKeys
+        exact List.Nodup.sublist (List.Sublist.map _ List.filter_sublist) hnd
+      have hfresh' : ∀ e ∈ nds.store, ∀ m ∈ rangeKeys nd.store 0 0, e.key ≠ m.key := by
+        intro e he m hm
+        obtain ⟨hm1, _, hm3⟩ := (mem_rangeKeys _ _ _ _).mp hm
+        exact hfresh e he m hm1 hm3
+      constructor
+      · intro e he hd
+        rw [hst]
+        exact import_delivers _ _ hmovednd hfresh' e
+          ((mem_rangeKeys _ _ _ _).mpr ⟨he, between_zero _, hd⟩)
+      · intro e he
+        rw [hst]
+        exact import_keeps_others _ _ e he (fun m hm hk => hfresh' e he m hm hk.symm)
+  · intro m hml hms
+    rw [hsh m]
+    cases net.get m with
+    | none => rfl
+    | some x => simp [tr, hml, hms]
+
+/-! ### witnesses and non-vacuity -/
+
+/-- a stable quiescent three-node ring with data on every node; node 20 holds one data key ("b", with a
+child) and one tombstone ("d") -/
+def ringL : Net :=
+  [(10, { state := .active, pred := some 30, succs := [20, 30, 10], fingers := List.replicate 48 (some 20),
+          store := [⟨"a", 5, some "v", []⟩] }),
+   (20, { state := .active, pred := some 10, succs := [30, 10, 20], fingers := List.replicate 48 (some 30),
+          store := [⟨"b", 15, some "w", ["c"]⟩, ⟨"d", 18, none, []⟩] }),
+   (30, { state := .active, pred := some 20, succs := [10, 20, 30], fingers := List.replicate 48 (some 10),
+          store := [⟨"e", 25, some "x", []⟩] })]
+
+/-- the hypotheses of all theorems above hold for `ringL` and the leaver 20, and the leave succeeds -/
+example : Stable ringL ∧ Quiescent ringL ∧ Mem ringL 20 ∧ (∃ m, Mem ringL m ∧ m ≠ 20) ∧ (leave ringL 20).2 = none :=
+  ⟨stable_of_stableB _ (by decide +kernel), quiescent_of_quiescentB _ (by decide +kernel), (memB_iff _ _).mp (by decide +kernel),
+   ⟨10, (memB_iff _ _).mp (by decide +kernel), by decide +kernel⟩, by decide +kernel⟩
+
+/-- the data of 20 arrives at 30, the tombstone stays behind, 10 is untouched -/
+example : ((leave ringL 20).1.get 30).map (·.store) =
+    some [⟨"e", 25, some "x", []⟩, ⟨"b", 15, some "w", ["c"]⟩] := by decide +kernel
+example : ((leave ringL 20).1.get 20).map (·.store) = some [⟨"d", 18, none, []⟩] := by decide +kernel
+example : ((leave ringL 20).1.get 10).map (·.store) = some [⟨"a", 5, some "v", []⟩] := by decide +kernel
+
+/-- the freshness hypotheses of `leave_conserves` hold in `ringL` -/
+example : ((([⟨"b", 15, some "w", ["c"]⟩, ⟨"d", 18, none, []⟩] : List KEntry).map (·.key)).Nodup) := by decide +kernel
+
+/-- **Witness 1: `Stable` is NOT preserved by `Leave()` alone.** Right after node 20 has left `ringL`,
+node 10 (its predecessor) still has the departed node 20 as first successor. -/
+theorem leave_breaks_stable : ¬ Stable (leave ringL 20).1 := by
+  intro hs
+  have hm : Mem (leave ringL 20).1 10 := (memB_iff _ _).mp (by decide +kernel)
+  obtain ⟨x, hg, hc⟩ := hm
+  obtain ⟨s, hsu, hsm, _⟩ := hs.succ 10 x hg hc
+  have h20 : ((leave ringL 20).1.get 10).bind (·.succs.head?) = some 20 := by decide +kernel
+  rw [hg] at h20
+  simp only [Option.bind_some] at h20
+  rw [hsu] at h20; injection h20 with h20; subst h20
+  have : memB (leave ringL 20).1 20 = false := by decide +kernel
+  have h2 := (memB_iff _ _).mpr hsm
+  rw [this] at h2; simp at h2
+
+/-- … and node 30 (its successor) still has it as predecessor -/
+example : ((leave ringL 20).1.get 30).bind (·.pred) = some 20 := by decide +kernel
+
+/-- **Witness 2: a lookup right after the leave returns the departed node.** Asked for key 15 (owned by
+node 30 once 20 is gone), node 10 answers "20" — a node that is `Left` and fails every request. -/
+theorem leave_lookup_returns_departed :
+    findSucc (leave ringL 20).1 FUEL 10 15 = .found 20 ∧ stateOf (leave ringL 20).1 20 = some .left := by
+  decide +kernel
+
+/-- after the predecessor's next `stabilize` the pointers are right again (and in this small ring one
+`fixFinger` at the predecessor makes the ring `Stable`) -/
+example : stableB (fixFinger (stabilize (leave ringL 20).1 10) 10) = true := by decide +kernel
+example : findSucc (stabilize (leave ringL 20).1 10) FUEL 10 15 = .found 30 := by decide +kernel
+
+/-- non-vacuity of the two-member case (`pre = succ`): node 100 leaves the ring {100, 200}; after 200's
+next `stabilize` and `fixFinger` the one-node ring is `Stable` -/
+def ring2 : Net :=
+  [(100, { state := .active, pred := some 200, succs := [200, 100], fingers := List.replicate 48 (some 200) }),
+   (200, { state := .active, pred := some 100, succs := [100, 200], fingers := List.replicate 48 (some 100) })]
+
+example : Stable ring2 ∧ Quiescent ring2 ∧ (leave ring2 100).2 = none :=
+  ⟨stable_of_stableB _ (by decide +kernel), quiescent_of_quiescentB _ (by decide +kernel), by decide +kernel⟩
+example : stableB (leave ring2 100).1 = false := by decide +kernel
+example : stableB (fixFinger (stabilize (leave ring2 100).1 200) 200) = true := by decide +kernel
+
+/-- **Witness 3: why the finger clause stays weakened.** `Stable` only asks fingers to be live members,
+not to be exact. In `ringS` (ids 10, 20, 30, 2^40) node 10 holds 30 in every finger slot — admissible for
+`Stable`, although no `fixFinger` run would produce it. After 30 has left and 20 has stabilized, node 10's
+lookups for far keys hop to the highest finger preceding the key — the departed 30 — and fail with
+`ErrNodeGone`; `fixFinger` therefore can never replace those fingers: after two full repair rounds at
+every node, node 10 still holds 30, its table is a fixpoint of `fixFinger`, the ring is not `Stable`,
+and node 10's lookup for key 45 still fails (node 2^40 answers it correctly). -/
+def ringS : Net :=
+  [(10, { state := .active, pred := some (2^40), succs := [20, 30, 2^40], fingers := List.replicate 48 (some 30) }),
+   (20, { state := .active, pred := some 10, succs := [30, 2^40, 10], fingers := List.replicate 48 (some 30) }),
+   (30, { state := .active, pred := some 20, succs := [2^40, 10, 20], fingers := List.replicate 48 (some (2^40)) }),
+   (2^40, { state := .active, pred := some 30, succs := [10, 20, 30], fingers := List.replicate 48 (some 10) })]
+
+def repairRound (net : Net) : Net :=
+  [10, 20, 2^40].foldl (fun net n => fixFinger (checkPredecessor (stabilize net n) n) n) net
+
+def ringS' : Net := repairRound (repairRound (stabilize (leave ringS 30).1 20))
+
+example : Stable ringS ∧ Quiescent ringS := ⟨stable_of_stableB _ (by decide +kernel), quiescent_of_quiescentB _ (by decide +kernel)⟩
+
+theorem stale_finger_persists :
+    (ringS'.get 10).map (·.fingers.contains (some 30)) = some true ∧
+    ((repairRound ringS').get 10).map (·.fingers) = (ringS'.get 10).map (·.fingers) ∧
+    stableB ringS' = false ∧
+    findSucc ringS' FUEL 10 45 = .err .gone ∧ findSucc ringS' FUEL (2^40) 45 = .found (2^40) := by
+  decide +kernel
+
+end Specter.C02.Leave
